@@ -175,6 +175,8 @@ def instantiate(interp, sp, name, shared, sizes=None):
         return v
     if isinstance(sp, S.Bool):
         return z3.Bool(ctx.fresh_name(name))
+    if isinstance(sp, S.Complex):
+        return Cx(z3.Real(ctx.fresh_name(name + '_re')), z3.Real(ctx.fresh_name(name + '_im')))
     if isinstance(sp, S.Size):
         return get_size(interp, sp.name)
     if isinstance(sp, S.Arr):
@@ -412,11 +414,23 @@ def discharge(ob, timeout_ms=10000, extra=(), nice=None):
     A model is only ever taken from the quantifier-free query and is replayed natively."""
     t0 = time.time()
     ob.backend = 'z3-' + z3.get_version_string()
-    s1 = solver_for(timeout_ms)
     qf = ob.hyps(quantified=False) + list(extra)
-    s1.add(*qf)
-    s1.add(z3.Not(ob.goal))
-    r1 = s1.check()
+    # small portfolio: z3 verdict times vary a lot with the random seed on nonlinear queries
+    r1 = z3.unknown
+    s1 = None
+    for seed, share in ((0, 0.5), (7, 0.25), (42, 0.25)):
+        s1 = solver_for(max(1000, int(timeout_ms * share)))
+        if seed:
+            s1.set('random_seed', seed)
+            try:
+                s1.set('smt.random_seed', seed)
+            except Exception:
+                pass
+        s1.add(*qf)
+        s1.add(z3.Not(ob.goal))
+        r1 = s1.check()
+        if r1 != z3.unknown:
+            break
     if r1 == z3.unsat:
         ob.status = 'discharged'
     else:
@@ -787,6 +801,9 @@ def verify_contract(c, registry, overrides=None, timeout_ms=10000, log=None, wan
                 res.fallback = 'path budget exceeded (%d) in config %s' % (c.max_paths, label)
                 break
             ctx = Ctx(decisions, fp=c.fp)
+            ctx.dual = bool(c.defs.get('dual'))
+            import pyvc.values as _V
+            _V.DUAL[0] = ctx.dual
             it = Interp(ctx, c, registry, overrides)
             it.sizes = {}
             it.ghost_env = {}
